@@ -510,6 +510,80 @@ example : WHistOk 2 [.sample 2 0 100, .sample 2 1 60] ∧
   · simp [WHistOk]
   · decide
 
+/-- **The switch rule for every sample history — `mono` discharged for clause "the choice changes
+only when …" too.**  In any world reached by a history of samples ≥ 1 ns, reports, penalty changes
+and policy switches (members only), under a min policy, one more report (`told`) or sample about a
+member changes the choice of that domain's set from `b` to another node `b'` only if `b` is no
+longer alive, or `b` has no measurement, or `b'` is measured, not worse, and better by the
+tolerance (or `b` is below the tolerance), or — the interpretation — `b'` was never measured and
+ranks 0 with `0 + tol ≤ b` or `b < tol`.  No free hypothesis beyond the domain of a sample. -/
+theorem switch_only_when_all_sample_histories (n : Nat) (tol : Int) (offs : Nat → Int) (p : Policy)
+    (fi : Int) (alive0 : Nat → Nat → Bool) (colls0 : Nat → Nat → Coll) (pens0 : Nat → Nat → Int)
+    (h : List WEv) (hok : WHistOk n h) (e : WEv) (t d : Nat) (hd : d < n)
+    (he : (∃ a, e = .told t d a) ∨ (∃ l, 1 ≤ l ∧ e = .sample t d l)) :
+    let w := runW (worldNew n tol offs p fi alive0 colls0 pens0) h
+    w.g.hasSets = true → w.g.policy.isMin = true →
+    let s := w.g.sets t
+    let s' := (stepW w e).g.sets t
+    ∀ b b', s.minD = some b → s'.minD = some b' → b ≠ b' →
+      (¬ ∃ x ∈ s'.entries, x.d = b) ∨ s'.lat b = none ∨
+      (∃ eb ∈ s'.entries, ∃ eb' ∈ s'.entries, eb.d = b ∧ eb'.d = b' ∧ s'.lat b' ≠ none ∧
+        eb'.sl ≤ eb.sl ∧ (eb'.sl + s.tol ≤ eb.sl ∨ eb.sl < s.tol)) ∨
+      (∃ eb ∈ s'.entries, ∃ eb' ∈ s'.entries, eb.d = b ∧ eb'.d = b' ∧ s'.lat b' = none ∧
+        eb'.sl = 0 ∧ 0 ≤ eb.sl ∧ (0 + s.tol ≤ eb.sl ∨ eb.sl < s.tol)) := by
+  intro w hh hm s s' b b' hb hb' hne
+  have hw : WInv n w := winv_run h _ (winv_new n tol offs p fi alive0 colls0 pens0) hok
+  -- the world in which the sets are told (for a sample: with the sample appended), the told flag
+  obtain ⟨w1, a, hw1, hg1, hstep, hs1⟩ : ∃ (w1 : World) (a : Bool), WInv n w1 ∧ w1.g = w.g ∧
+      stepW w e = (toldStep w1 t d a).1 ∧
+      (((w1.colls t d).snapshot w1.g.policy 0).isSome = true → w1.snap w1.g.policy t d ≠ none) := by
+    rcases he with ⟨a, rfl⟩ | ⟨l, hl, rfl⟩
+    · refine ⟨w, a, hw, rfl, rfl, ?_⟩
+      intro hx
+      unfold World.snap
+      rw [← isSome_ne_none, snapshot_isSome_pen _ _ _ 0]; exact hx
+    · let w1 : World := { w with colls := upd w.colls t (upd (w.colls t) d ((w.colls t d).append l)) }
+      have hw1 : WInv n w1 := by
+        refine ⟨hw.ginv, ?_, hw.hn⟩
+        intro hh' t' d' hlat
+        have := hw.link hh' t' d' hlat
+        show ((w1.colls t' d').snapshot w.g.policy 0).isSome = true
+        simp only [w1, upd]
+        by_cases ht : t' = t
+        · subst ht
+          by_cases hdd : d' = d
+          · subst hdd; simp only [if_true, upd]; exact snapshot_stays _ _ 0 0 l hl this
+          · simp only [if_true, upd, hdd, if_false]; exact this
+        · simp only [ht, if_false]; exact this
+      refine ⟨w1, true, hw1, rfl, rfl, ?_⟩
+      intro hx
+      unfold World.snap
+      rw [← isSome_ne_none, snapshot_isSome_pen _ _ _ 0]; exact hx
+  have hh1 : w1.g.hasSets = true := by rw [hg1]; exact hh
+  have hm1 : w1.g.policy.isMin = true := by rw [hg1]; exact hm
+  have hb1 : (w1.g.sets t).minD = some b := by rw [hg1]; exact hb
+  have hb1' : ((toldStep w1 t d a).1.g.sets t).minD = some b' := by rw [← hstep]; exact hb'
+  have key := switch_world hw1 hh1 hm1 a hd hs1 hb1 hb1' hne
+  have hs'eq : s' = (toldStep w1 t d a).1.g.sets t := by show (stepW w e).g.sets t = _; rw [hstep]
+  have htol : (w1.g.sets t).tol = s.tol := by rw [hg1]
+  rw [← hs'eq, htol] at key
+  -- split the "better" disjunct by whether the new choice has a recorded latency
+  have hs'inv : SInv s' := by
+    rw [hs'eq, toldStep_sets w1 hh1 t d a]
+    exact sinv_notify (hw1.ginv.sets hh1 t).1 (notifyOk_of_winv hw1 hh1 hd _ hs1)
+  have hpol' : s'.policy.isMin = true := by
+    rw [hs'eq, toldStep_sets w1 hh1 t d a, (notify_frame _ d a _).2.2.2.1, (hw1.ginv.sets hh1 t).2.1]; exact hm1
+  rcases key with h1 | h2 | ⟨eb, heb, eb', heb', h3, h4, h5, h6⟩
+  · exact Or.inl h1
+  · exact Or.inr (Or.inl h2)
+  · have hlc := hs'inv.latCons hpol' eb' heb'
+    cases hl : s'.lat b' with
+    | some r => exact Or.inr (Or.inr (Or.inl ⟨eb, heb, eb', heb', h3, h4, by simp, h5, h6⟩))
+    | none =>
+      have h0 : eb'.sl = 0 := by rw [hlc, h4]; simp [expSl, hl]
+      rw [h0] at h5 h6
+      exact Or.inr (Or.inr (Or.inr ⟨eb, heb, eb', heb', h3, h4, rfl, h0, h5, h6⟩))
+
 /-! ## F. reload hand-over
 
 `ControlPlane.InheritDialerHealthFrom` = for each group: `CaptureReloadSelectionFallback`
